@@ -36,8 +36,8 @@ func (c AddrCase) ip() net.IP {
 
 type customAddr struct{ ap netip.AddrPort }
 
-func (customAddr) Network() string           { return "custom" }
-func (c customAddr) String() string          { return c.ap.String() }
+func (customAddr) Network() string            { return "custom" }
+func (c customAddr) String() string           { return c.ap.String() }
 func (c customAddr) AddrPort() netip.AddrPort { return c.ap }
 
 func checkAddr(c AddrCase) error {
